@@ -48,6 +48,7 @@ def build_groups(rng, tier):
     forced_n = 40 if tier == "quick" else 600
     for rep in range(reps + forced_n):
         bad_pos = None
+        bad_set = set()
         forced = rep >= reps        # dedicated family: rank-1 f64 data with non-finite / huge samples, queries on the knots
         S = "F" if forced else rng.choice(["Q", "F"])
         special = forced or (S == "F" and rng.random() < 0.35)
@@ -121,6 +122,11 @@ def build_groups(rng, tier):
                 span = xs[-1] - xs[0]
                 qs[pos] = rng.choice([xs[-1] + span, xs[0] - span / 3] + ([float("nan"), float("inf")] if S == "F" else []))
                 bad_pos = pos
+                if pos + 1 < nq and rng.random() < 0.5:
+                    pos2 = rng.randrange(pos + 1, nq)
+                    qs[pos2] = xs[0] - span * 2      # a later, different rejected element
+                    bad_set.add(pos2)
+                bad_set.add(pos)
             mk = lambda e, dt=dtag: i1_line(S, xs, shape, flat, strat, e, dtag=dt)
             batch = mk(e_array(S, qshape, qs, qtag=qtag, lay=rng.choice(gen.LAYS_ND)))
             into = mk(e_ainto(S, qshape, qshape + trailing, qs, qtag=qtag, lay=rng.choice(gen.LAYS_ND), blay=rng.choice(gen.LAYS_ND)))
@@ -133,8 +139,8 @@ def build_groups(rng, tier):
         cases.append({"line": batch, "meta": {"shape": want_shape, "nq": nq, "special": special, "oob": bad_pos is not None}})
         cases.append({"line": into, "meta": {"shape": want_shape, "nq": nq, "special": special, "oob": bad_pos is not None}})
         for s_, _k in singles:
-            cases.append({"line": s_, "meta": {"shape": None, "nq": 1, "special": special, "oob": _k == bad_pos}})
-        groups.append((base, base + 1, [(base + 2 + j, k_) for j, (_s, k_) in enumerate(singles)], gen.shape_size(trailing), nq, bad_pos))
+            cases.append({"line": s_, "meta": {"shape": None, "nq": 1, "special": special, "oob": _k in bad_set}})
+        groups.append((base, base + 1, [(base + 2 + j, k_) for j, (_s, k_) in enumerate(singles)], gen.shape_size(trailing), nq, (bad_pos, bad_set) if bad_pos is not None else None))
     return cases, groups
 
 
@@ -180,13 +186,14 @@ def extra(rng, tier):
     for b, i, singles, L, nq, bad_pos in groups:
         rb, ri = Result(outs[b]), Result(outs[i])
         if bad_pos is not None:
+            bad_pos, bad_set = bad_pos
             # the element at bad_pos is rejected by the single-point entry points; so must the batch be, in both variants
             for idx_, nm in ((b, "interp_array"), (i, "interp_array_into")):
                 if Result(outs[idx_]).kind != "oob":
                     fails.append({"line": lines[idx_], "impl": outs[idx_][:200],
                                   "required": f"{nm}: element #{bad_pos} is rejected by interp(), so the batch must return OutOfBounds"})
             for s, idx in singles:
-                want_k = "oob" if idx == bad_pos else "ok"
+                want_k = "oob" if idx in bad_set else "ok"
                 if Result(outs[s]).kind != want_k:
                     fails.append({"line": lines[s], "impl": outs[s][:200], "required": f"single query must be `{want_k}`"})
             checked += 1
